@@ -18,6 +18,41 @@ fn vid__from_password(uuid: &str) -> (r: Result<[u8; 16], uuid::Error>)
 /// README: VMess takes "aes-128-gcm" or "chacha20-poly1305"; V2Fly security codes 3 and 4
 pub open spec fn vmess_security(kind: CipherKind) -> SecurityType { if kind is ChaCha20Poly1305 { SecurityType::Chacha20Poly1305 } else { SecurityType::Aes128Gcm } }
 
+//@@ octo-squirrel/src/config.rs:64-84  struct ServerConfig  sha=4a1981ff06f0d60b
+pub struct ServerConfig<S: Clone + Default> {
+    pub host: String,
+    pub port: u16,
+    pub mode: cfg__Mode,
+    pub password: String,
+    pub protocol: Protocol,
+    pub cipher: CipherKind,
+    pub ssl: Option<S>,
+    pub ws: Option<WebSocketConfig>,
+    pub quic: Option<S>,
+    pub user: Vec<User>,
+    marker: PhantomData<S>,
+}
+
+//@@ octo-squirrel/src/config.rs:92-98  struct WebSocketConfig  sha=f6c7c5e2c14b9f62
+pub struct WebSocketConfig {
+    pub header: HashMap<String, String>,
+    pub path: String,
+}
+
+//@@ octo-squirrel/src/config.rs:100-104  struct User  sha=bb2d5e07d1c8ea18
+pub struct User {
+    pub name: String,
+    pub password: String,
+}
+
+//@@ octo-squirrel-server/src/server/config.rs:9-17  struct SslConfig  sha=e1273042d9ebfa96
+#[derive(Default, Clone)]
+pub struct SslConfig {
+    pub certificate_file: String,
+    pub key_file: String,
+    pub server_name: String,
+}
+
 //@@ octo-squirrel/src/protocol/vmess/header.rs:68-75  impl From for SecurityType#0  sha=6733604020742d4a
 impl vstd::std_specs::convert::FromSpecImpl<CipherKind> for SecurityType {
     open spec fn obeys_from_spec() -> bool { true }
@@ -74,3 +109,41 @@ fn vtcp__new_codec(addr: &Address, verif_arg2: (CipherKind, String)) -> (r: anyh
         let header = RequestHeader::default(RequestCommand::TCP, security, addr.clone(), &password)?;
         Ok(ClientAEADCodec::new(header))
     }
+
+//@@ octo-squirrel/src/protocol/vmess.rs:116-122  mod id / fn from_passwords  sha=a165dc0ac3488d15
+spec fn str_u8(s: &String) -> Seq<u8> { s@.map_values(|c: char| c as u8) }
+fn vid__from_passwords(uuid: Vec<&String>) -> (r: Result<Vec<[u8; 16]>, uuid::Error>)
+    ensures
+        //#C06 C03 C16
+        // one id per configured UUID, in order; a malformed UUID is an error (never a default id)
+        match r {
+            Ok(v) => v@.len() == uuid@.len() && forall|i: int| 0 <= i < v@.len() ==> vmess_id(str_u8(uuid@[i])) == Some(#[trigger] v@[i]@),
+            Err(_) => exists|i: int| 0 <= i < uuid@.len() && vmess_id(str_u8(uuid@[i])) is None,
+        },
+{
+        let mut res: Vec<[u8; 16]> = Vec::with_capacity(uuid.len());
+        let ghost all = uuid@;
+        for uuid in it: uuid
+            invariant it.seq() == all, res@.len() == it.index@,
+                forall|i: int| 0 <= i < res@.len() ==> vmess_id(str_u8(all[i])) == Some(#[trigger] res@[i]@),
+        {
+            res.push(vid__from_password(uuid)?);
+        }
+        Ok(res)
+    }
+
+//@@ octo-squirrel-server/src/server/vmess.rs:229-237  impl TryFrom for ServerAeadCodec  sha=1a41f2b7fec5c188
+impl ServerAeadCodec {
+
+    fn try_from(config: &ServerConfig<SslConfig>) -> (r: Result<Self, anyhow::Error>)
+        ensures
+            //#C06 C16
+            // the server honours exactly the ids of the configured users; one malformed user id stops startup with an error
+            r matches Ok(c) ==> c.keys@.len() == config.user@.len() && forall|i: int| 0 <= i < c.keys@.len() ==> vmess_id(str_u8(&config.user@[i].password)) == Some(#[trigger] c.keys@[i]@),
+    {
+        let uuid: Vec<&String> = config.user.iter().map(|u: &User| -> (r: &String) ensures *r == u.password { &u.password }).collect();
+        proof { assert(uuid@.len() == config.user@.len()); assert(forall|i: int| 0 <= i < uuid@.len() ==> *uuid@[i] == config.user@[i].password); }
+        let keys = vid__from_passwords(uuid)?;
+        Ok(Self { keys, decode_state: vsrv__DecodeState::Init, encode_state: vsrv__EncodeState::Init, connected: false })
+    }
+}
